@@ -57,7 +57,11 @@ def protoAnswer (size : Nat) (ops sched : String) : String :=
   s!"nproc={showNats (ranks.map st.mnproc)} snproc={showNats (ranks.map st.nproc)} " ++
   s!"est={showInts (ranks.map st.est)} " ++
   s!"left={showNats (st.queue.map (·.1))} assigned={dash (st.assigned.map fun (i, s) => s!"{i}:{s}")} " ++
-  s!"alive={showBools (ranks.map st.alive)} todo={st.prog.length} skipped={r.2}"
+  s!"alive={showBools (ranks.map st.alive)} todo={st.prog.length} skipped={r.2} " ++
+  s!"inbox={showNats (ranks.map fun s => (st.inbox s).length)} " ++
+  s!"outbox={showNats (ranks.map fun s => (st.outbox s).length)} " ++
+  s!"steps={MpiProto.executed jobF (MpiProto.init (β := Nat) size prog) (nats sched)} " ++
+  s!"measure={MpiProto.measure st} measure0={MpiProto.measure (MpiProto.init (β := Nat) size prog)}"
 
 def answer (toks : List String) : String :=
   match toks with
